@@ -26,6 +26,7 @@ import importlib
 import io
 import json
 import os
+import pickle
 import queue
 import random
 import sys
@@ -149,7 +150,9 @@ def run_job(job: dict) -> dict:
 
     def put(trace_no, prompt_no, command):
         sent.append([trace_no, prompt_no, command])
-        qin.put(PdbCommand(trace_no=trace_no, prompt_no=prompt_no, command=command))
+        # through pickle, as the multiprocessing queue of the real parent does: the child must never see the
+        # responder's own objects (an identity comparison of numbers would otherwise go unnoticed)
+        qin.put(pickle.loads(pickle.dumps(PdbCommand(trace_no=trace_no, prompt_no=prompt_no, command=command))))
 
     def responder():
         while (ev := qout.get()) is not None:
